@@ -205,3 +205,25 @@ Proof.
   vm_compute. eexists. split; [right; left; reflexivity|].
   repeat split. left. reflexivity.
 Qed.
+
+(* ... and "contributes null (never the raw resolver value)": the data of a completed request
+   holds null at the failed field's path or at one of its prefixes (the nearest nullable
+   ancestor the failure propagated to).  Corollary of C04_failed_field_has_error and
+   C18_error_paths_address_null (Proofs/ExecPaths.v request_error_paths_null). *)
+Theorem C04_failed_field_is_null : forall fuel S D opn inputs root or tor d s,
+  request fuel S D opn inputs root or tor = RDone (Some d) s ->
+  exists op vars,
+    get_operation D opn = Some op /\
+    get_variable_values fuel S (o_vars op) inputs = Some (inl vars) /\
+    let E := {| en_S := S; en_D := D; en_vars := vars; en_or := or; en_tor := tor;
+                en_serial := match o_kind op with OpMutation => true | _ => false end |} in
+    forall c, In c (st_calls s) -> fails_now E c -> null_on_path d (c_path c) = true.
+Proof.
+  intros fuel S D opn inputs root or tor d s H.
+  destruct (request_failures_reported _ _ _ _ _ _ _ _ _ _ H) as [op [vars [H1 [H2 H3]]]].
+  exists op, vars. split; [exact H1|]. split; [exact H2|]. cbv zeta in H3 |- *.
+  intros c Hc Hf. destruct (H3 c Hc Hf) as [e [He [Hp _]]].
+  pose proof (request_error_paths_null _ _ _ _ _ _ _ _ _ _ H) as Hok. cbn [paths_ok] in Hok.
+  rewrite forallb_forall in Hok. rewrite <- Hp. apply Hok. exact He.
+Qed.
+Print Assumptions C04_failed_field_is_null.
